@@ -207,7 +207,8 @@ def build(w, case):
 
 
 def run_sched(case):
-    w = NetWorld()
+    t0 = case.get('t0', 0)
+    w = NetWorld(t0)
     env = w.env
     s, f2c = build(w, case)
     flows = case.get('flows', [])
@@ -223,13 +224,13 @@ def run_sched(case):
         s.out = None          # explicitly nothing: transmitted packets are simply gone
     else:
         s.out = OutTap(w, 's', s, Recorder(w, 'sink'), post=counters)
-    start_injector(w, InTap(w, 's', s, post=counters), [tuple(x) for x in case.get('workload', [])])
+    start_injector(w, InTap(w, 's', s, post=counters), [tuple([t0 + x[0]] + list(x[1:])) for x in case.get('workload', [])])
     if case.get('shadow'):
         sh = dict(case)
         sh.update(case['shadow'])
         s2, _f = build(w, sh)
         s2.out = OutTap(w, 's2', s2, Recorder(w, 'sink2'))
-        start_injector(w, InTap(w, 's2', s2), [tuple(x) for x in sh.get('workload', [])], src='src2')
+        start_injector(w, InTap(w, 's2', s2), [tuple([t0 + x[0]] + list(x[1:])) for x in sh.get('workload', [])], src='src2')
     mon = None
     if case.get('monitor'):
         m = case['monitor']
@@ -508,7 +509,7 @@ def stamps(H, case, kind):
     evs.sort(key=lambda e: e[0])
     resets = 0
     if kind == 'VC':
-        aux = dict((c, 0) for c in table)
+        aux = dict((c, float('-inf')) for c in table)      # no previous packet: the first stamp is now + vtick
         for g, what, a in evs:
             if what == 'in' and a['cls'] in table:
                 aux[a['cls']] = max(a['t'], aux[a['cls']]) + table[a['cls']]
